@@ -207,7 +207,7 @@ func c15Corpus(tier string) (states [][]Op, cmds [][]Op) {
 		fixtureOps("100000"),
 		{c("SET", "ks", "hello world"), c("SET", "kd", "hello wide"), c("RPUSH", "kl", "3", "1", "2"), c("HSET", "kh", "f", "1.5", "g", "x", "h", "10"), c("SADD", "kz", "m", "n2", "o3", "p4")},
 	}
-	for _, target := range []string{"kn", "ks", "kl", "kh", "kz"} {
+	for _, target := range []string{"kn", "ks", "kl", "kh", "kz", "ke"} {
 		for _, o := range commandMatrix(target, true) {
 			cmds = append(cmds, []Op{o})
 		}
